@@ -236,6 +236,17 @@ def _run_doc(I, r, payload, stubs, what):
     import json as _json
     env = pelx.with_heap(I, {DATA: payload, Op("len", DATA): len(payload), Op("truthy", DATA): bool(payload)})
     env["__ops__"] = stubs
+    # an exception raised outside the loops and outside every try (e.g. by a range check) leaves the parser: no document
+    from .c12 import tries_covering
+    for e_ in I.events:
+        if e_.kind == "raise" and not e_.loops and not tries_covering(I.events, e_):
+            try:
+                if evaluate(e_.guard, env):
+                    return "<raises %s at line %s>" % (repr(e_.data[0])[:60], getattr(e_.node, "lineno", "?"))
+            except CannotEval:
+                pass
+            except Exception:
+                pass
     try:
         v = evaluate(r, env)
     except CannotEval as e:
@@ -427,3 +438,8 @@ def run(rep, prog, thorough):
     # the hardware-diagnostics sections reach their plug-in as (subtype, version, exact payload) (rule shared with C18)
     from .c18 import check_ud_names_and_args
     check_ud_names_and_args(rep, prog)
+    # the plug-in that decodes a section is found for THIS section's component: nothing a decode leaves behind (a cache
+    # of found parsers keyed by something coarser) is read by a later one (rule shared with C19)
+    from .c05 import decoder_runs
+    from .c19 import check_decode_state
+    check_decode_state(rep, prog, decoder_runs(prog))
